@@ -122,6 +122,59 @@ def canon(v):
     return ["?" + type(v).__name__, repr(v)[:80]]
 
 
+def _scribble(v):
+    """User code may change a value it got from a durable call in place; what the call delivers on a
+    replay must not depend on that (e.g. through a shared cached object)."""
+    try:
+        if isinstance(v, list):
+            v.append("__scribbled__")
+        elif isinstance(v, dict):
+            v["__scribbled__"] = True
+        elif hasattr(v, "all") and isinstance(getattr(v, "all"), list):
+            for it in v.all:
+                if isinstance(getattr(it, "result", None), (list, dict)):
+                    _scribble(it.result)
+    except Exception:  # noqa: BLE001 - frozen / odd containers: nothing to do
+        pass
+
+
+class XSerDes:
+    """Custom SerDes used for invoke payload/result variants: 'X' + JSON."""
+
+    def __init__(self, base):
+        self._base = base
+
+    def serialize(self, value, ctx=None):
+        import json as _json
+        return "X" + _json.dumps(value)
+
+    def deserialize(self, data, ctx=None):
+        import json as _json
+        if not data.startswith("X"):
+            raise ValueError("not an X payload")
+        return _json.loads(data[1:])
+
+
+_XS = {}
+
+
+def _x_serdes(serdes_mod):
+    """An instance of a real SerDes subclass (the SDK type-checks nothing, but stay honest)."""
+    if "cls" not in _XS:
+        class _X(serdes_mod.SerDes):
+            def serialize(self, value, serdes_context):
+                import json as _json
+                return "X" + _json.dumps(value)
+
+            def deserialize(self, data, serdes_context):
+                import json as _json
+                if not data.startswith("X"):
+                    raise ValueError("not an X payload")
+                return _json.loads(data[1:])
+        _XS["cls"] = _X
+    return _XS["cls"]()
+
+
 def _digest(s):
     import hashlib
     return hashlib.blake2b(s.encode(), digest_size=8).hexdigest()
@@ -228,6 +281,7 @@ class Interp:
             raise
         c = canon(v)
         w.rec("call-ret", pos=pos, op=op, v=c)
+        _scribble(v)
         return c
 
     # ------------------------------------------------------- user functions
@@ -376,7 +430,13 @@ class Interp:
 
     def op_invoke(self, ctx, st, pos, item):
         C = self.cfgmod
-        cfg = C.InvokeConfig(timeout=C.Duration(seconds=st.get("timeout", 0)))
+        kw = {}
+        sd = st.get("serdes")
+        if sd in ("payload", "both"):
+            kw["serdes_payload"] = _x_serdes(self.serdes)
+        if sd in ("result", "both"):
+            kw["serdes_result"] = _x_serdes(self.serdes)
+        cfg = C.InvokeConfig(timeout=C.Duration(seconds=st.get("timeout", 0)), **kw)
         return ctx.invoke(st.get("target", "fn-x"), mkvalue(st.get("payload", ["none"])), name=pos, config=cfg)
 
     def op_wfcond(self, ctx, st, pos, item):
